@@ -1320,7 +1320,7 @@ def defer_harness():
     return tasks_mod, fake, body, KEY
 
 
-def probe_defer(existing_state, cyclic, known_trigger=False, started=True, still_impossible=False):
+def probe_defer(existing_state, cyclic, known_trigger=False, started=True, still_impossible=False, wf_body=False):
     """What the REAL Task.defer does when the join execution already exists in `existing_state` (None = absent) and
     a task routes to it: 'create' | 'keep' | 'rearm' (put back to WAITING).  `started`: the execution has action
     executions (it ran) or none (it completed by its logical state only).  `still_impossible`: what the task's own
@@ -1351,8 +1351,10 @@ def probe_defer(existing_state, cyclic, known_trigger=False, started=True, still
     if existing_state is not None:
         row = FakeTaskRow('row1', {'state': existing_state, 'unique_key': KEY, 'name': 'j'}, None)
         row.runtime_context = {'triggered_by': [{'task_id': 'ta', 'event': 'on-success'}]}
+        # what the join ran: action executions, or - when its body is a sub-workflow (wf_body) - workflow executions only
         row.executions = [object()] if started else []
-        row.action_executions = row.executions
+        row.action_executions = [] if wf_body else row.executions
+        row.workflow_executions = row.executions if wf_body else []
 
     class FakeDb(object):
         def get_task_executions(self, **kw):
@@ -1396,15 +1398,16 @@ def suite_defer_decision(ctx):
     exprs, obs, cases = [], [], []
     for cyclic in (False, True):
         for st in [None] + STATES:
-            variants = [(True, False)]
+            variants = [(True, False, False)]
             if st in COMPLETED:
-                variants.append((False, False))
+                variants.append((True, False, True))       # the join's body is a sub-workflow: it HAS run
+                variants.append((False, False, False))
                 # a join that never started and still cannot run is not re-armed (where the source has that test)
                 from mistral.engine import tasks as tasks_mod
                 if hasattr(tasks_mod.Task, '_is_still_impossible'):
-                    variants.append((False, True))
-            for started, impossible in variants:
-                eff = probe_defer(st, cyclic, started=started, still_impossible=impossible)
+                    variants.append((False, True, False))
+            for started, impossible, wf_body in variants:
+                eff = probe_defer(st, cyclic, started=started, still_impossible=impossible, wf_body=wf_body)
                 flag = 'defer_rearm_cyclic' if cyclic else 'defer_rearm_acyclic'
                 a = abstract[st] if started else 'JFailed'
                 # a never-started join is re-armed when it can run now, or - like one that ran - when it lies on a cycle
@@ -1413,7 +1416,7 @@ def suite_defer_decision(ctx):
                 # the state the real code leaves behind, abstracted the same way
                 after = {'create': 'JWaiting', 'rearm': 'JWaiting', 'keep': a}.get(eff, eff)
                 obs.append(code.get(after, after))
-                cases.append({'existing': st, 'cyclic': cyclic, 'started': started, 'still_impossible': impossible, 'effect': eff})
+                cases.append({'existing': st, 'cyclic': cyclic, 'started': started, 'still_impossible': impossible, 'wf_body': wf_body, 'effect': eff})
     res = core.coq_eval('c04defer', ['Model.JoinLife', 'Gen.Locks'], exprs)
     for c, o, r in zip(cases, obs, res):
         ctx.count('defer_decision', json.dumps(c, sort_keys=True), nontrivial=c['existing'] is not None)
@@ -1422,7 +1425,7 @@ def suite_defer_decision(ctx):
             ctx.disagree('defer_decision', c, r, o)
     ctx.cov['suites']['defer_decision']['effects'] = {
         '%s/%s/%s' % (c['existing'], 'cyclic' if c['cyclic'] else 'acyclic',
-                      'ran' if c['started'] else ('never-ran-still-impossible' if c['still_impossible'] else 'never-ran')): c['effect']
+                      ('ran-sub-workflow' if c.get('wf_body') else 'ran') if c['started'] else ('never-ran-still-impossible' if c['still_impossible'] else 'never-ran')): c['effect']
         for c in cases}
 
 
@@ -1791,6 +1794,11 @@ def run(ctx):
         t0 = time.time()
         f(ctx)
         times[f.__name__] = round(time.time() - t0, 1)
+    # real engine, oracle only: joins whose body is a sub-workflow or an action, triggered by branches completing in any order
+    t0 = time.time()
+    from harness import engine_explore as ee
+    ee.explore(ctx, ['C04'], ['joinsub'], ctx.n(16, 200), 4, suite='engine_explore_C04')
+    times['engine_explore_C04'] = round(time.time() - t0, 1)
     ctx.cov['definitions_checked_by_real_validator'] = _VALIDATED['n']
     ctx.assumptions += [
         'a route condition either puts the target into next_tasks or not (expression evaluation is not modelled)',
